@@ -252,6 +252,14 @@ func (j *judge) ports(ols []oneLiner, pr portRule) {
 		if !printed {
 			p, shown = "443", "443, none printed"
 		}
+		if strings.Count(ol.Addr, ":") >= 2 && !strings.HasPrefix(ol.Addr, "[") {
+			// an IPv6 literal in a URL has to be in brackets: without them whatever follows the
+			// last colon is the port (https://2001:db8::5/c asks for port 5 of "2001:db8:")
+			k := strings.LastIndexByte(ol.Addr, ':')
+			p, printed = ol.Addr[k+1:], true
+			shown = p + ", the text after the last colon of an unbracketed IPv6 literal"
+			j.r.Count("oneliners_with_unbracketed_ipv6_literal", 1)
+		}
 		ups := pr.user[h]
 		strict := len(ups) > 0 && !ups[""] && !pr.local[h]
 		switch {
@@ -444,6 +452,9 @@ var cb443Pool = [][]string{
 	nil,
 	{"cb.example:443", "alt.example:8888"},
 	{"kittens.com:8888"},
+	// bare IPv6 literals without a port (they must come out bracketed, with or without ":443")
+	{"2001:db8::7", "cb.example:8443"},
+	{"::1", "2001:db8::9", "[2001:db8::a]:444"},
 }
 
 // fixtures shared by all cases.
